@@ -15,7 +15,8 @@ from experimaestro import (
     Option,
     Param,
     Task,
-    pathgenerator,
+    PathGenerator,
+    field,
 )
 
 
@@ -41,7 +42,7 @@ class Leaf(Config):
     m: Meta[int] = 3
     e: Param[Color] = Color.RED
     k: Constant[int] = 7
-    p: Meta[Path] = pathgenerator("leaf.txt")
+    p: Meta[Path] = field(default_factory=PathGenerator("leaf.txt"))
 
 
 class Leaf2(Config):
@@ -87,7 +88,7 @@ class Node(Config):
     child: Param[Leaf]
     other: Param[Optional[Leaf]]
     aux: Meta[Optional[Leaf]]
-    path: Meta[Path] = pathgenerator("node.bin")
+    path: Meta[Path] = field(default_factory=PathGenerator("node.bin"))
 
 
 class Top(Config):
@@ -115,7 +116,7 @@ class Bag(Config):
     dd: Param[Dict[str, Dict[str, int]]] = {}
     ll: Param[List[List[int]]] = []
     ls: Param[List[List[str]]] = []
-    out: Meta[Path] = pathgenerator("bag.out")
+    out: Meta[Path] = field(default_factory=PathGenerator("bag.out"))
 
 
 class CycA(Config):
@@ -179,7 +180,7 @@ class Produce(Task):
 
     x: Param[int]
     leaf: Param[Optional[Leaf]]
-    stamp: Meta[Path] = pathgenerator("produce.stamp")
+    stamp: Meta[Path] = field(default_factory=PathGenerator("produce.stamp"))
 
     def execute(self):
         from xv.defs import calls
@@ -213,7 +214,7 @@ class Consume(Task):
     srcs: Param[List[Produce]] = []
     dsrc: Param[Dict[str, Produce]] = {}
     node: Param[Optional["Wrap"]]
-    result: Meta[Path] = pathgenerator("result.txt")
+    result: Meta[Path] = field(default_factory=PathGenerator("result.txt"))
 
     def execute(self):
         from xv.defs import calls
